@@ -53,6 +53,35 @@ func Gen(t *rapid.T, g GenCfg) []Op {
 	sessRef := func() int {
 		return rapid.IntRange(0, nsess-1).Draw(t, "sess")
 	}
+	// scripted core (1 in 3): a SEID is released by one node, re-issued to another, then the
+	// first node is hit by a bulk event - the shape in which stale ownership shows
+	if rapid.IntRange(0, 2).Draw(t, "core") == 0 {
+		a, b := 0, 1
+		if rapid.Bool().Draw(t, "swap") {
+			a, b = 1, 0
+		}
+		if !(g.SharedCP && len(associated) == 2) {
+			ops = append(ops, Op{Op: stack.Op{Kind: "assoc", Peer: 1, Node: 1, Sess: -1}})
+			associated = append(associated, 1)
+		}
+		cpNext[a]++
+		ops = append(ops, Op{Op: stack.Op{Kind: "est", Peer: a, Node: a, Sess: -1, CP: 0x2000 + cpNext[a], Rules: g.Rules.GenRules(t, true)}})
+		first := nsess
+		nsess++
+		switch rapid.SampledFrom([]string{"del", "rsp0", "rsp0"}).Draw(t, "release") {
+		case "del":
+			ops = append(ops, Op{Op: stack.Op{Kind: "del", Peer: a, Sess: first}})
+		default:
+			ops = append(ops, Op{Op: stack.Op{Kind: "report", Sess: first, URRs: []uint32{1}, Trig: 2}},
+				Op{Op: stack.Op{Kind: "rsp", Peer: a, Sess: -1, SEID0: true}})
+		}
+		cpNext[b]++
+		ops = append(ops, Op{Op: stack.Op{Kind: "est", Peer: b, Node: b, Sess: -1, CP: 0x3000 + cpNext[b], Rules: g.Rules.GenRules(t, true)}})
+		second := nsess
+		nsess++
+		ops = append(ops, Op{Op: stack.Op{Kind: "assoc", Peer: a, Node: a, Sess: -1}},
+			Op{Op: stack.Op{Kind: "mod", Peer: b, Sess: second}})
+	}
 	for i := 0; i < n; i++ {
 		switch rapid.SampledFrom(kinds).Draw(t, "op") {
 		case "assoc":
